@@ -20,7 +20,7 @@ func init() {
 			"R2: in both backends every record stored/encoded by Create, Put, PutMany and CasByVersion got its Version from ulidutils.NewID() by a store that dominates the write with no other write to the field in between; NewID is the string form of ulid.Make() (process-wide locked monotonic source). " +
 			"R3 (redis): Create's only write command is SETNX and it succeeds only on SETNX's ok edge; CasByVersion reads through the Tx and writes in the MULTI/EXEC pipeline of a WATCH on the same key, guarded by version equality. " +
 			"R4 (redis): a lost optimistic transaction (redis.TxFailedErr) is reported as ErrConflict. " +
-			"R5: version mismatch -> ErrConflict, missing key -> ErrNotExist, present key -> ErrExist on the deciding edges of both backends (loser outcomes).",
+			"R5: version mismatch -> ErrConflict, missing key -> ErrNotExist, present key -> ErrExist on the deciding edges of both backends (loser outcomes). R6: Put returns the record it wrote itself (not one read back). R7: PutMany stores every record of the batch.",
 		NotDecided: "linearizability of concurrent histories; uniqueness of ULIDs and atomicity of SETNX / WATCH-EXEC inside the redis server (trusted).",
 		Trusted:    []string{"go-redis: SetNX is atomic, Watch returns redis.TxFailedErr when EXEC aborts", "oklog/ulid: ulid.Make() is safe for concurrent use and monotonic"},
 	})
@@ -182,6 +182,22 @@ func runC02(c *Ctx) {
 	c.redisAtomicPrimitives(rd, "C02.R3")
 	c.R.Floor("C02.R3", 5)
 	c.redisLoserOutcome(rd, "C02.R4")
+	// R6: Put returns the record it wrote
+	c.putReturnsOwnRecord("C02.R6", rd.storage["Put"], rd.encode, func(in ssa.Instruction) ssa.Value {
+		if call, ok := in.(*ssa.Call); ok && ir.StaticCallee(call) == rd.encode {
+			return call.Call.Args[0]
+		}
+		return nil
+	})
+	c.putReturnsOwnRecord("C02.R6", im.storage["Put"], nil, func(in ssa.Instruction) ssa.Value {
+		if mu := im.recsUpdate(in); mu != nil {
+			if u, ok := mu.Value.(*ssa.UnOp); ok {
+				return u.X
+			}
+		}
+		return nil
+	})
+	c.everyBatchRecordWritten(im, "C02.R7")
 	c.inmemClassEdges(im, "C02.R5", "")
 	c.redisClassEdges(rd, "C02.R5", "C02.R5")
 	c.R.Floor("C02.R5", 10)
